@@ -30,6 +30,15 @@ BLOCKS = {
     # '@self': c  -- the variable's own last search step is tested by the acceptance rule as well, and one more period changes it by c times that step;
     # a derived variable that is a small difference of large ones (a balance) is bound much tighter by its own test than by the stocks'
     'with-deco':    ("x = 0.5*LAG_x + D\nb = D - x\nLAG_x = x(k-1)", {'x': {'x': 0.5, '@self': 0.5}, 'LAG_x': {'x': 1.0}, 'b': {'x': 0.5, '@self': 0.5}}, ['x', 'LAG_x']),
+    # a block whose period is itself solved by iteration (x appears on its own right-hand side): '@iter': (a, main tolerance) -- each reported
+    # value lies within E(v, tau) = max(tau*|v|/(1-tau), min(tau, 1e-3))/(1-a) of its period's fixed point (derived from the solver's exit test), so a
+    # correct search - one whose periods are solved to the solver's OWN tolerance - may move a stock by the drift of the fixed points plus E at both ends
+    'within-period': ("x = 0.25*x + 0.75*(0.5*LAG_x + D)\nLAG_x = x(k-1)\nErr_Tolerance = 1e-4", {'x': {'x': 0.5, '@iter': (0.25, 1e-4)}, 'LAG_x': {'x': 1.0}}, ['x', 'LAG_x']),
+    # the same with a slow within-period contraction (0.8), explored near a would-be steady state only: both k=0 values equal, the exogenous level within 10%
+    # of the level that would make them steady.  There a search whose periods are solved only to the (looser) steady-state tolerance stops each period after
+    # one sweep and accepts a state that the solver's own tolerance then moves by several per cent.
+    'within-period-slow': ("x = 0.8*x + 0.2*(0.5*LAG_x + D)\nLAG_x = x(k-1)\nErr_Tolerance = 1e-3", {'x': {'x': 0.5, '@iter': (0.8, 1e-3)}, 'LAG_x': {'x': 1.0}}, ['x', 'LAG_x'],
+                           lambda sy, ds: [sy['LAG_x'] == sy['x'], sy['x'] >= 10, ds[0] * 2 >= sy['x'] * symx.rat(0.9), ds[0] * 2 <= sy['x'] * symx.rat(1.1)]),
     'deco-balance': ("x = 0.5*LAG_x + D\nbal = 2*D - x\nsav = x - LAG_x\nLAG_x = x(k-1)",
                      {'x': {'x': 0.5, '@self': 0.5}, 'LAG_x': {'x': 1.0}, 'bal': {'x': 0.5, '@self': 0.5}, 'sav': {'x': 0.5, '@self': 0.5}}, ['x', 'LAG_x']),
 }
@@ -49,7 +58,7 @@ class StubRender(object):
 
 def case_run(case):
     name, T, tol = case
-    text, gain, k0 = BLOCKS[name]
+    text, gain, k0 = BLOCKS[name][:3]
     full = text + '\nMaxTime = 3'
     D = Driver(timeout_ms=15000, max_paths=20000, max_seconds=BUDGET[0])
     box = 2000
@@ -60,6 +69,8 @@ def case_run(case):
         D.assume(dv >= -box, dv <= box)
     for v in syms.values():
         D.assume(v >= -box, v <= box)
+    if len(BLOCKS[name]) > 3:
+        D.assume(*BLOCKS[name][3](syms, ds))
     out = {'case': case, 'viol': None, 'unknown': 0, 'outcomes': {}}
     TOL = symx.rat(tol)
 
@@ -119,6 +130,13 @@ def case_run(case):
             for stock, c in gain[v].items():
                 if stock == '@self':
                     props.append(diff <= symx.rat(1e-6) + symx.rat(abs(c)) * lim_of(a))
+                elif stock == '@iter':
+                    ca, tau = c
+                    for val in (a, b):
+                        mag = z3.If(val >= 0, val, -val)
+                        e = symx.rat(tau) * mag / (1 - symx.rat(tau))
+                        e = z3.If(e >= symx.rat(min(tau, 1e-3)), e, symx.rat(min(tau, 1e-3)))
+                        allowed = allowed + e / (1 - symx.rat(ca))
                 else:
                     allowed = allowed + symx.rat(abs(c)) * lim_of(x0[stock])
             props.append(diff <= allowed)
@@ -147,6 +165,8 @@ def cases(tier):
             for tol in (1e-4, 1e-2):
                 if name in ('two-stocks',) and tier == 'quick':
                     continue       # coupled stocks: nonlinear relative-error terms make some feasibility queries slow (thorough tier)
+                if name.startswith('within-period') and (T, tol) != (2, 1e-2) and (tier == 'quick' or name.endswith('slow')):
+                    continue       # every sweep of an iterated period forks: one (horizon, tolerance) pair in the quick tier
                 out.append((name, T, tol))
     return out
 
@@ -158,7 +178,7 @@ from sfc_models.equation_solver import EquationSolver, NoEquilibriumError
 from vf.props.c15 import BLOCKS
 name, T, tol = %(case)r
 vals = {k: float(F(v)) for k, v in %(vals)r.items()}
-text, gain, k0 = BLOCKS[name]
+text, gain, k0 = BLOCKS[name][:3]
 es = EquationSolver(text + '\\nMaxTime = 3', run_equation_reduction=True)
 es.ParameterInitialSteadyStateMaxTime = T; es.ParameterInitialSteadyStateErrorToler = tol
 path = [vals['D_%%d' %% i] for i in range(4)]
@@ -178,7 +198,10 @@ es.SolveStep(1)
 for v, a in x0.items():
     if v not in gain: continue
     b = es.TimeSeries[v][1]
-    lim = 1e-6 + sum(abs(c) * max(tol * abs(x0[st]), tol, 2e-4) for st, c in gain[v].items() if st != '@self')
+    lim = 1e-6 + sum(abs(c) * max(tol * abs(x0[st]), tol, 2e-4) for st, c in gain[v].items() if not st.startswith('@'))
+    if '@iter' in gain[v]:
+        ca, tau = gain[v]['@iter']
+        lim += sum(max(tau * abs(val) / (1 - tau), min(tau, 1e-3)) / (1 - ca) for val in (a, b))
     if '@self' in gain[v]: lim = min(lim, 1e-6 + abs(gain[v]['@self']) * max(tol * abs(a), tol, 2e-4))
     print(v, 'installed k=0 value', a, 'next period', b, 'allowed change', lim)
     if abs(b - a) > lim * (1 + 1e-9): bad = True
